@@ -120,16 +120,20 @@ func HarnessC16Repack() {
 		envWriteFile(root+"/a", 0644, 1000, "a")
 		envMkdir(root+"/b", 0755, 1000)
 		envWriteFile(root+"/b/q", 0644, 1000, "bq")
+		envSymlink(root+"/b/l", "../a", 1000) // a relative in-tree link
 	}
 	envWriteFile("/w/s/.terraformignore", 0644, 1000, r1)
 	envWriteFile("/w/h/.terraformignore", 0644, 1000, r2)
 	p := &Packer{applyTerraformIgnore: true}
 	envBaseline()
 	_, err := p.Pack("/w/s", envWriter())
-	verif.Assume(err == nil)
+	verif.Assert("C16-first-pack-succeeds", err == nil)
 	envTarResetOutput()
 	_, err = p.Pack("/w/h", envWriter())
-	verif.Assume(err == nil)
+	verif.Assert("C16-pack-of-another-tree-with-the-same-packer-succeeds", err == nil)
+	if err != nil {
+		return
+	}
 	want := c16Key(envTarWritten())
 	envTarResetOutput()
 	envRewriteFile("/w/s/.terraformignore", r2)
@@ -157,6 +161,7 @@ func HarnessC16Overlap() {
 		envMkdir(root+"/b", 0755, 1000)
 		envWriteFile(root+"/b/q", 0644, 1000, "bq")
 		envWriteFile(root+"/q", 0644, 1000, "q")
+		envSymlink(root+"/b/l", "../a", 1000)
 	}
 	envWriteFile("/w/s/.terraformignore", 0644, 1000, r1)
 	envWriteFile("/w/h/.terraformignore", 0644, 1000, r2)
